@@ -323,12 +323,106 @@ def _r06f(rep):
                      "the constructor changes the points it is given before storing them", line=a.lineno)
 
 
+
+def _r06h(rep):
+    """Extended Euclid step behind the Smith normal form: the remainder handed to the next step is never negative, so the
+    gcd (and with it the diagonal of D that range(D[i]) enumerates) comes out non-negative."""
+    SNF = "phonopy/structure/snf.py"
+    rep.rule("R06h", "Xgcd._step: for a divisor of either sign the remainder it returns lies in [0, |r1|) (interval evaluation of the step with Python's divmod, whose remainder takes the sign of the divisor) and the quotient is adjusted so that r0 = q r1 + r2 still holds; with a negative remainder the gcd can come out negative, a diagonal entry of the Smith normal form stays negative and range(D[i]) yields no commensurate point", 2)
+    fn = core.find_def(SNF, "Xgcd._step")
+    ps = [a.arg for a in fn.args.args]
+    if len(ps) < 3:
+        raise AnalysisError("Xgcd._step: signature changed")
+    r0n, r1n = ps[1], ps[2]
+    a = sp.Symbol("a", positive=True)          # |r1|
+    results = []
+    for sign in (1, -1):
+        r1 = sign * a
+        # divmod(r0, r1): r0 = q r1 + m, m in [0, r1) for r1 > 0 and in (r1, 0] for r1 < 0; m = theta * r1, theta in [0, 1)
+        th = sp.Symbol("theta", nonnegative=True)   # theta < 1 is used when bounds are compared below
+        states = [({"__q": sp.Symbol("q0"), "__m": th * r1}, [])]
+        names = {}
+
+        def val(e, st):
+            if isinstance(e, ast.Name):
+                if e.id == r1n:
+                    return r1
+                return st.get(e.id)
+            if isinstance(e, ast.Constant) and isinstance(e.value, int):
+                return sp.Integer(e.value)
+            if isinstance(e, ast.UnaryOp) and isinstance(e.op, ast.USub):
+                v = val(e.operand, st)
+                return None if v is None else -v
+            if isinstance(e, ast.BinOp) and isinstance(e.op, (ast.Add, ast.Sub, ast.Mult)):
+                x, y = val(e.left, st), val(e.right, st)
+                if x is None or y is None:
+                    return None
+                return x + y if isinstance(e.op, ast.Add) else (x - y if isinstance(e.op, ast.Sub) else x * y)
+            return None
+
+        def split(test, st):
+            """[(state, truth)] for a comparison of a tracked value with 0"""
+            if isinstance(test, ast.Compare) and len(test.ops) == 1 and isinstance(test.comparators[0], ast.Constant) and test.comparators[0].value == 0:
+                v = val(test.left, st)
+                if v is None:
+                    return None
+                op = type(test.ops[0])
+                # v is c * theta * a or c * a (+ ...): decide by substituting theta in {0, 1/2}
+                out = []
+                for thv, tag in ((sp.Integer(0), "theta = 0"), (sp.Rational(1, 2), "0 < theta < 1")):
+                    vv = v.subs(th, thv)
+                    truth = {ast.Lt: vv.is_negative, ast.Gt: vv.is_positive, ast.LtE: vv.is_nonpositive, ast.GtE: vv.is_nonnegative, ast.Eq: vv.is_zero, ast.NotEq: (None if vv.is_zero is None else not vv.is_zero)}.get(op)
+                    if truth is None:
+                        return None
+                    out.append((thv, bool(truth)))
+                return out
+            return None
+
+        def run(stmts, st, thv):
+            for s_ in stmts:
+                if isinstance(s_, ast.Assign) and isinstance(s_.targets[0], ast.Tuple) and isinstance(s_.value, ast.Call) and core.src(s_.value.func) == "divmod":
+                    qn, mn = (t.id for t in s_.targets[0].elts)
+                    st[qn], st[mn] = st["__q"], st["__m"]
+                elif isinstance(s_, ast.Assign) and isinstance(s_.targets[0], ast.Name):
+                    st[s_.targets[0].id] = val(s_.value, st)
+                elif isinstance(s_, ast.AugAssign) and isinstance(s_.target, ast.Name) and isinstance(s_.op, (ast.Add, ast.Sub)):
+                    cur, d = st.get(s_.target.id), val(s_.value, st)
+                    st[s_.target.id] = None if cur is None or d is None else (cur + d if isinstance(s_.op, ast.Add) else cur - d)
+                elif isinstance(s_, ast.If):
+                    sp_ = split(s_.test, st)
+                    if sp_ is None:
+                        raise AnalysisError(f"Xgcd._step: test '{core.src(s_.test)}' outside the modelled fragment")
+                    truth = dict(sp_)[thv]
+                    run(s_.body if truth else s_.orelse, st, thv)
+                elif isinstance(s_, ast.Return):
+                    st["__ret"] = s_.value
+            return st
+
+        for thv in (sp.Integer(0), sp.Rational(1, 2)):
+            st = run(fn.body, {"__q": sp.Symbol("q0"), "__m": th * r1}, thv)
+            ret = st.get("__ret")
+            if not isinstance(ret, ast.Tuple) or len(ret.elts) < 2:
+                raise AnalysisError("Xgcd._step no longer returns (r1, r2, ...)")
+            r2 = val(ret.elts[1], st)
+            qv = None
+            # quotient consistency: r0 = q0 r1 + theta r1 must equal q r1 + r2 for the q used in the s / t updates
+            qnames = [t.id for s_ in fn.body if isinstance(s_, ast.Assign) and isinstance(s_.targets[0], ast.Tuple) and isinstance(s_.value, ast.Call) and core.src(s_.value.func) == "divmod" for t in s_.targets[0].elts[:1]]
+            qv = st.get(qnames[0]) if qnames else None
+            results.append((sign, thv, r2, qv, th * r1 + sp.Symbol("q0") * r1))
+    bad_r = [(sg, thv, r2) for sg, thv, r2, _, _ in results if r2 is None or not (r2.subs(th, thv).is_nonnegative)]
+    bad_q = [(sg, thv) for sg, thv, r2, qv, r0 in results if r2 is None or qv is None or sp.simplify((qv * (sg * a) + r2 - r0).subs(th, thv)) != 0]
+    rep.instance("R06h", SNF, "Xgcd._step", "remainder >= 0 for positive and negative divisors", not bad_r,
+                 f"for a {'negative' if bad_r and bad_r[0][0] < 0 else 'positive'} divisor the remainder handed on is {bad_r[0][2] if bad_r else ''} (a = |r1|, theta in [0, 1)): negative, so the gcd and a diagonal entry of the Smith normal form can come out negative and get_commensurate_points_in_integers enumerates range(D[i]) = nothing for those supercell matrices", line=fn.lineno)
+    rep.instance("R06h", SNF, "Xgcd._step", "r0 = q r1 + r2 with the quotient used for the Bezout coefficients", not bad_q, "the quotient is not adjusted together with the remainder", line=fn.lineno)
+
+
 _run_main = run
 
 
 def run(rep: core.Report):
     _run_main(rep)
     _r06f(rep)
+    _r06h(rep)
     from rules import shared_trunc
 
     shared_trunc.run(rep, "R06g")
@@ -350,4 +444,5 @@ def selftest():
     n("python inverse coefficient reordered", D2F, "                coef = np.sqrt(m[p_i] * m[p_j]) / N", "                coef = np.sqrt(m[p_j] * m[p_i]) / N")
     b("setter folds the caller's points into the unit cell", D2F, '        self._commensurate_points = np.array(comm_points, dtype="double", order="C")', '        pts = np.array(comm_points, dtype="double", order="C")\n        self._commensurate_points = pts - np.floor(pts)', "R06f", "setter")
     n("setter converts through asarray and copy", D2F, '        self._commensurate_points = np.array(comm_points, dtype="double", order="C")', '        pts = np.asarray(comm_points, dtype="double")\n        self._commensurate_points = np.ascontiguousarray(pts).copy()')
+    b("xgcd step keeps the raw divmod remainder", "phonopy/structure/snf.py", "        q, m = divmod(r0, r1)\n        if m < 0:\n            if r1 > 0:\n                m += r1\n                q -= 1\n            if r1 < 0:\n                m -= r1\n                q += 1\n        r2 = m", "        q, r2 = divmod(r0, r1)", "R06h", "remainder")
     return V
